@@ -9,7 +9,7 @@ import (
 	"strings"
 )
 
-func indent(s string, n int) string {
+func dmIndent(s string, n int) string {
 	pad := strings.Repeat("    ", n)
 	ls := strings.Split(s, "\n")
 	for i, l := range ls {
@@ -20,30 +20,30 @@ func indent(s string, n int) string {
 	return strings.Join(ls, "\n")
 }
 
-const acctAuth = "auth(Storage, Capabilities, Contracts) &Account"
+const dmAcctAuth = "auth(Storage, Capabilities, Contracts) &Account"
 
-type scenState struct {
-	g       *gen
+type dmScenState struct {
+	g       *dmGen
 	c       string            // contract name
 	paths   map[string]string // storage path -> kind ("Q", "R", "S", "Int", "Arr")
 	pub     map[string]string // public path -> kind of published capability
-	structT *ty               // a struct type of the contract without function fields (storable), or nil
-	steps   []Step
+	structT *dmTy             // a struct type of the contract without function fields (storable), or nil
+	steps   []dmStep
 	hasExt  bool // the contract has the updated function
 }
 
-func storableStruct(c *comp) bool {
-	var ok func(t *ty) bool
-	ok = func(t *ty) bool {
+func dmStorableStruct(c *dmComp) bool {
+	var ok func(t *dmTy) bool
+	ok = func(t *dmTy) bool {
 		switch t.k {
-		case kFun, kRef, kAnyStruct, kIface, kRange:
+		case dmKFun, dmKRef, dmKAnyStruct, dmKIface, dmKRange:
 			return false
-		case kOpt, kArr, kCArr:
+		case dmKOpt, dmKArr, dmKCArr:
 			return ok(t.elem)
-		case kDict:
+		case dmKDict:
 			return ok(t.key) && ok(t.elem)
-		case kStruct:
-			return storableStruct(t.comp)
+		case dmKStruct:
+			return dmStorableStruct(t.comp)
 		}
 		return true
 	}
@@ -56,12 +56,12 @@ func storableStruct(c *comp) bool {
 }
 
 // contractCode assembles the contract from the declarations generated so far.
-func (g *gen) contractCode(name string, imports string, extra string, withStore bool) string {
+func (g *dmGen) contractCode(name string, imports string, extra string, withStore bool) string {
 	var sb strings.Builder
 	sb.WriteString(imports)
 	sb.WriteString("access(all) contract " + name + " {\n")
 	for _, d := range g.decls {
-		sb.WriteString(indent(d, 1))
+		sb.WriteString(dmIndent(d, 1))
 		sb.WriteString("\n")
 	}
 	sb.WriteString("    access(all) var total: Int\n")
@@ -78,7 +78,7 @@ func (g *gen) contractCode(name string, imports string, extra string, withStore 
 		sb.WriteString("    }\n")
 	}
 	if extra != "" {
-		sb.WriteString(indent(extra, 1) + "\n")
+		sb.WriteString(dmIndent(extra, 1) + "\n")
 	}
 	sb.WriteString("    init() {\n")
 	sb.WriteString("        self.total = 0\n")
@@ -90,14 +90,14 @@ func (g *gen) contractCode(name string, imports string, extra string, withStore 
 	return sb.String()
 }
 
-func (g *gen) genEvent() {
+func (g *dmGen) genEvent() {
 	name := g.fresh("Ev")
-	ev := &fnDecl{name: name}
+	ev := &dmFnDecl{name: name}
 	n := 1 + g.r.Intn(2)
 	var ps []string
 	for i := 0; i < n; i++ {
-		t := pick(g, []*ty{tInt, tString, opt(tInt), tBool, arr(tInt)})
-		p := param{label: "", name: fmt.Sprintf("e%d", i), t: t}
+		t := dmPick(g, []*dmTy{dmTInt, dmTString, dmOpt(dmTInt), dmTBool, dmArr(dmTInt)})
+		p := dmParam{label: "", name: fmt.Sprintf("e%d", i), t: t}
 		ev.params = append(ev.params, p)
 		ps = append(ps, p.name+": "+t.String())
 	}
@@ -107,7 +107,7 @@ func (g *gen) genEvent() {
 }
 
 // scenario generates a multi-step history.
-func (g *gen) scenario() *Scenario {
+func (g *dmGen) scenario() *dmScenario {
 	g.rareKnown = g.chance(1, 40)
 	C := "C1"
 	g.inContract = C
@@ -131,15 +131,15 @@ func (g *gen) scenario() *Scenario {
 	for i, n := 0, 1+g.r.Intn(3); i < n; i++ {
 		g.genFunc()
 	}
-	st := &scenState{g: g, c: C, paths: map[string]string{}, pub: map[string]string{}}
+	st := &dmScenState{g: g, c: C, paths: map[string]string{}, pub: map[string]string{}}
 	for _, c := range g.structs {
-		if storableStruct(c) {
+		if dmStorableStruct(c) {
 			st.structT = c.t
 		}
 	}
 	withStore := g.chance(1, 2)
 	code := g.contractCode(C, "", "", withStore)
-	st.steps = append(st.steps, Step{Kind: "deploy", Addr: "0x1", Name: C, Code: code})
+	st.steps = append(st.steps, dmStep{Kind: "deploy", Addr: "0x1", Name: C, Code: code})
 	g.feat("contract")
 	g.inContract = ""
 	g.outside = true
@@ -148,7 +148,7 @@ func (g *gen) scenario() *Scenario {
 	// second contract importing the first
 	second := g.chance(1, 2)
 	if second {
-		st.steps = append(st.steps, Step{Kind: "deploy", Addr: "0x2", Name: "D1", Code: g.secondContract(C)})
+		st.steps = append(st.steps, dmStep{Kind: "deploy", Addr: "0x2", Name: "D1", Code: g.secondContract(C)})
 		g.feat("contract-imports-contract")
 	}
 	imports := "import " + C + " from 0x1\n"
@@ -159,9 +159,9 @@ func (g *gen) scenario() *Scenario {
 	for i := 0; i < n; i++ {
 		switch g.r.Intn(12) {
 		case 0, 1, 2, 3, 4, 5:
-			st.steps = append(st.steps, Step{Kind: "tx", Addr: pick(g, []string{"0x1", "0x1", "0x3"}), Code: g.txCode(st, imports, second, withStore)})
+			st.steps = append(st.steps, dmStep{Kind: "tx", Addr: dmPick(g, []string{"0x1", "0x1", "0x3"}), Code: g.txCode(st, imports, second, withStore)})
 		case 6, 7, 8:
-			st.steps = append(st.steps, Step{Kind: "script", Code: g.scriptCode(st, imports, second)})
+			st.steps = append(st.steps, dmStep{Kind: "script", Code: g.scriptCode(st, imports, second)})
 		case 9:
 			// contract update (valid: adds a function; or invalid: removes a field -> user error)
 			g.feat("contract-update")
@@ -179,35 +179,35 @@ func (g *gen) scenario() *Scenario {
 			g.inContract = ""
 			g.qc.outside = true
 			tx := fmt.Sprintf("transaction {\n    prepare(s: %s) {\n        s.contracts.update(name: %q, code: \"%s\".decodeHex())\n    }\n}",
-				acctAuth, C, hex.EncodeToString([]byte(newCode)))
-			st.steps = append(st.steps, Step{Kind: "tx", Addr: "0x1", Code: tx})
+				dmAcctAuth, C, hex.EncodeToString([]byte(newCode)))
+			st.steps = append(st.steps, dmStep{Kind: "tx", Addr: "0x1", Code: tx})
 		case 10:
-			st.steps = append(st.steps, Step{Kind: "tx", Addr: "0x3", Code: g.contractOpsTx(st)})
+			st.steps = append(st.steps, dmStep{Kind: "tx", Addr: "0x3", Code: g.contractOpsTx(st)})
 		default:
 			if second && g.chance(1, 2) {
 				g.feat("contract-removal")
-				tx := fmt.Sprintf("transaction {\n    prepare(s: %s) {\n        let removed = s.contracts.remove(name: \"D1\")\n        log(removed?.name)\n    }\n}", acctAuth)
-				st.steps = append(st.steps, Step{Kind: "tx", Addr: "0x2", Code: tx})
+				tx := fmt.Sprintf("transaction {\n    prepare(s: %s) {\n        let removed = s.contracts.remove(name: \"D1\")\n        log(removed?.name)\n    }\n}", dmAcctAuth)
+				st.steps = append(st.steps, dmStep{Kind: "tx", Addr: "0x2", Code: tx})
 				second = false
 				imports = "import " + C + " from 0x1\n"
 			} else {
-				st.steps = append(st.steps, Step{Kind: "script", Code: g.scriptCode(st, imports, second)})
+				st.steps = append(st.steps, dmStep{Kind: "script", Code: g.scriptCode(st, imports, second)})
 			}
 		}
 	}
-	sc := &Scenario{Kind: "scenario", Steps: st.steps}
+	sc := &dmScenario{Kind: "scenario", Steps: st.steps}
 	sc.Features = g.features()
 	return sc
 }
 
 // secondContract: a contract importing C with composites implementing C's interfaces.
-func (g *gen) secondContract(C string) string {
-	b := &blk{}
+func (g *dmGen) secondContract(C string) string {
+	b := &dmBlk{}
 	b.add("import %s from 0x1", C)
 	b.open("access(all) contract D1 {")
 	b.add("access(all) event Made(n: Int)")
 	if len(g.sifaces) > 0 {
-		i := pick(g, g.sifaces)
+		i := dmPick(g, g.sifaces)
 		b.open("access(all) struct DS: %s {", i.ref())
 		b.add("access(all) var w: Int")
 		b.open("init() {")
@@ -256,7 +256,7 @@ func (g *gen) secondContract(C string) string {
 	return b.String()
 }
 
-func (st *scenState) freePath() string {
+func (st *dmScenState) freePath() string {
 	for i := 0; i < 4; i++ {
 		p := fmt.Sprintf("/storage/p%d", i)
 		if st.paths[p] == "" {
@@ -266,10 +266,10 @@ func (st *scenState) freePath() string {
 	return ""
 }
 
-func (st *scenState) pathOf(kind string) string {
+func (st *dmScenState) pathOf(dmKind string) string {
 	for i := 0; i < 4; i++ {
 		p := fmt.Sprintf("/storage/p%d", i)
-		if st.paths[p] == kind {
+		if st.paths[p] == dmKind {
 			return p
 		}
 	}
@@ -277,14 +277,14 @@ func (st *scenState) pathOf(kind string) string {
 }
 
 // txCode: a transaction with storage / capability operations, resource phases and general statements.
-func (g *gen) txCode(st *scenState, imports string, second bool, withStore bool) string {
-	b := &blk{}
+func (g *dmGen) txCode(st *dmScenState, imports string, second bool, withStore bool) string {
+	b := &dmBlk{}
 	for _, l := range strings.Split(strings.TrimSpace(imports), "\n") {
 		b.add(l)
 	}
 	b.open("transaction {")
-	b.open("prepare(s: %s) {", acctAuth)
-	s := &scope{ctx: &fctx{}}
+	b.open("prepare(s: %s) {", dmAcctAuth)
+	s := &dmScope{ctx: &dmFctx{}}
 	Q := g.res.cont.t.String()
 	R := g.leafT().String()
 	n := 2 + g.r.Intn(5)
@@ -319,13 +319,13 @@ func (g *gen) txCode(st *scenState, imports string, second bool, withStore bool)
 						st.paths[p] = "S"
 					}
 				} else {
-					b.add("s.storage.save(%s, to: %s)", g.exact(s, tInt, 1), p)
+					b.add("s.storage.save(%s, to: %s)", g.exact(s, dmTInt, 1), p)
 					if free {
 						st.paths[p] = "Int"
 					}
 				}
 			default:
-				b.add("s.storage.save(%s, to: %s)", g.exact(s, arr(tInt), 1), p)
+				b.add("s.storage.save(%s, to: %s)", g.exact(s, dmArr(dmTInt), 1), p)
 				if free {
 					st.paths[p] = "Arr"
 				}
@@ -375,7 +375,7 @@ func (g *gen) txCode(st *scenState, imports string, second bool, withStore bool)
 		case 7:
 			// load
 			kinds := []string{"Q", "R", "S", "Int", "Arr"}
-			k := pick(g, kinds)
+			k := dmPick(g, kinds)
 			p := st.pathOf(k)
 			if p == "" {
 				p = fmt.Sprintf("/storage/p%d", g.r.Intn(4))
@@ -400,20 +400,20 @@ func (g *gen) txCode(st *scenState, imports string, second bool, withStore bool)
 			case "S":
 				if st.structT != nil {
 					b.add("let %s = s.storage.load<%s>(from: %s)", x, st.structT.String(), p)
-					s.add(&vr{name: x, t: opt(st.structT), live: true})
+					s.add(&dmVr{name: x, t: dmOpt(st.structT), live: true})
 					if st.paths[p] == k {
 						st.paths[p] = ""
 					}
 				}
 			case "Int":
 				b.add("let %s = s.storage.load<Int>(from: %s) ?? 0", x, p)
-				s.add(&vr{name: x, t: tInt, live: true})
+				s.add(&dmVr{name: x, t: dmTInt, live: true})
 				if st.paths[p] == k {
 					st.paths[p] = ""
 				}
 			default:
 				b.add("let %s = s.storage.copy<[Int]>(from: %s) ?? []", x, p)
-				s.add(&vr{name: x, t: arr(tInt), live: true})
+				s.add(&dmVr{name: x, t: dmArr(dmTInt), live: true})
 				g.feat("storage-copy")
 			}
 			g.feat("storage-load")
@@ -484,7 +484,7 @@ func (g *gen) txCode(st *scenState, imports string, second bool, withStore bool)
 			}
 		case 13:
 			if withStore {
-				k := g.keyLit(tString, g.r.Intn(3))
+				k := g.keyLit(dmTString, g.r.Intn(3))
 				if g.chance(1, 2) {
 					b.add("%s.deposit(%s, <- %s(%d))", st.c, k, g.fq(g.res.mk), g.r.Intn(9))
 				} else {
@@ -538,17 +538,17 @@ func (g *gen) txCode(st *scenState, imports string, second bool, withStore bool)
 }
 
 // scriptCode: a script reading public state and running general code against the contract types.
-func (g *gen) scriptCode(st *scenState, imports string, second bool) string {
-	b := &blk{}
+func (g *dmGen) scriptCode(st *dmScenState, imports string, second bool) string {
+	b := &dmBlk{}
 	for _, l := range strings.Split(strings.TrimSpace(imports), "\n") {
 		b.add(l)
 	}
 	Q := g.res.cont.t.String()
 	ret := g.valueType(1)
-	if ret.k == kFun {
-		ret = tInt
+	if ret.k == dmKFun {
+		ret = dmTInt
 	}
-	s := &scope{ctx: &fctx{ret: ret}}
+	s := &dmScope{ctx: &dmFctx{ret: ret}}
 	b.open("access(all) fun main(): %s {", ret.String())
 	n := 1 + g.r.Intn(4)
 	for i := 0; i < n; i++ {
@@ -564,7 +564,7 @@ func (g *gen) scriptCode(st *scenState, imports string, second bool) string {
 				g.stmts(b, s, 1, 2)
 			}
 		case 5:
-			acct := pick(g, []string{"0x1", "0x3"})
+			acct := dmPick(g, []string{"0x1", "0x3"})
 			pp := fmt.Sprintf("/public/c%d", g.r.Intn(2))
 			r := g.fresh("pr")
 			b.open("if let %s = getAccount(%s).capabilities.borrow<&%s>(%s) {", r, acct, Q, pp)
@@ -582,7 +582,7 @@ func (g *gen) scriptCode(st *scenState, imports string, second bool) string {
 			b.close()
 			g.feat("script-capability-borrow")
 		case 6:
-			acct := pick(g, []string{"0x1", "0x3"})
+			acct := dmPick(g, []string{"0x1", "0x3"})
 			a := g.fresh("aa")
 			b.add("let %s = getAuthAccount<auth(Storage) &Account>(%s)", a, acct)
 			p := fmt.Sprintf("/storage/p%d", g.r.Intn(4))
@@ -609,12 +609,12 @@ func (g *gen) scriptCode(st *scenState, imports string, second bool) string {
 }
 
 // contractOpsTx: contracts.add / get / borrow / names / remove inside one transaction.
-func (g *gen) contractOpsTx(st *scenState) string {
+func (g *dmGen) contractOpsTx(st *dmScenState) string {
 	name := g.fresh("T")
 	code := fmt.Sprintf("access(all) contract %s {\n    access(all) var x: Int\n    access(all) fun f(): Int { return self.x }\n    init() { self.x = %d }\n}", name, g.r.Intn(9))
-	b := &blk{}
+	b := &dmBlk{}
 	b.open("transaction {")
-	b.open("prepare(s: %s) {", acctAuth)
+	b.open("prepare(s: %s) {", dmAcctAuth)
 	b.add("let c = s.contracts.add(name: %q, code: \"%s\".decodeHex())", name, hex.EncodeToString([]byte(code)))
 	b.add("log(c.name)")
 	b.add("log(s.contracts.names)")
